@@ -4,6 +4,7 @@ from __future__ import annotations
 from hypothesis import strategies as st
 
 from vf.ref import rv32
+from vf.ref.rv32 import dest
 
 B = 2 ** 14
 T = 2 ** 32
@@ -90,9 +91,22 @@ def instruction(ops=None, aligned_only=False, mem_base=8):
 @st.composite
 def template(draw, aligned_only=False):
     """Structured blocks: counted loop, call/return, print / exit sequences, load-use, store-load."""
-    kind = draw(st.sampled_from(["loop", "call", "print", "exit", "loaduse", "storeload", "printstr", "jalrwrap", "rmw"]))
+    kind = draw(st.sampled_from(["loop", "call", "print", "exit", "loaduse", "storeload", "printstr", "jalrwrap", "rmw", "bigloop", "nested"]))
     body_ops = [o for o in rv32.ALL_OPS if o not in rv32.BRANCH_OPS + ["jal", "jalr", "ecall"]]
     body = lambda n: draw(st.lists(instruction(body_ops, aligned_only), min_size=0, max_size=n))  # noqa: E731
+    if kind == "nested":
+        # inner loop smaller than a cache set, outer loop larger: re-use followed by new blocks (separates LRU from PLRU)
+        b1 = [i for i in draw(st.lists(instruction(body_ops, aligned_only), min_size=0, max_size=2)) if dest(i) not in (6, 7)]
+        b2 = [i for i in draw(st.lists(instruction(body_ops, aligned_only), min_size=1, max_size=5)) if dest(i) not in (6, 7)]
+        inner = b1 + [["addi", 6, 6, -1], ["bne", 6, 0, -4 * (len(b1) + 1)]]
+        outer = [["addi", 6, 0, draw(st.integers(2, 3))]] + inner + b2 + [["addi", 7, 7, -1]]
+        return [["addi", 7, 0, draw(st.integers(2, 3))]] + outer + [["bne", 7, 0, -4 * len(outer)]]
+    if kind == "bigloop":
+        # a loop whose body spans several cache blocks, executed 2-3 times
+        cnt = draw(st.sampled_from([6, 7]))
+        b = [i for i in draw(st.lists(instruction(body_ops, aligned_only), min_size=4, max_size=9)) if dest(i) != cnt]
+        n = draw(st.integers(2, 3))
+        return [["addi", cnt, 0, n]] + b + [["addi", cnt, cnt, -1], ["bne", cnt, 0, -4 * (len(b) + 1)]]
     if kind == "loop":
         cnt = draw(st.sampled_from([5, 6, 7]))  # counter register (not used by the pool-biased body most of the time)
         b = [i for i in body(3) if rv32.dest(i) != cnt]
